@@ -207,6 +207,21 @@ def framePartial (tag : Nat) (segs : List Nat) (body : Bytes) : Option Bytes :=
 def LegalSegs (tag : Nat) (segs : List Nat) : Prop :=
   (segs ≠ [] → partialAllowed tag = true ∧ 9 ≤ segs.head!) ∧ ∀ k ∈ segs, k ≤ 30
 
+/-! ## fixed-length emitter -/
+
+/-- `LiteralDataFixedGenerator` read to its end: the packet header announces `lit.length + n` octets
+(`lit` = the literal data header, `n` = the announced length of the source, e.g. a file's metadata
+length); `src` = all the octets the source yields.  As repaired (D17c) the generator hands out
+exactly the announced amount and fails when the source has less or more; before the repair it
+copied whatever the source yielded. -/
+def fixedGenWith (fixed : Bool) (lit : Bytes) (n : Nat) (src : Bytes) : Option Bytes :=
+  if fixed then
+    (if src.length = n then some (writeHeader true 11 (lit.length + n) ++ lit ++ src) else none)
+  else some (writeHeader true 11 (lit.length + n) ++ lit ++ src)
+
+def fixedGen (lit : Bytes) (n : Nat) (src : Bytes) : Option Bytes :=
+  fixedGenWith (Gen.fixD17cFixedGeneratorHonoursLength = 1) lit n src
+
 /-! ## packet streams -/
 
 /-- `PacketParser` as an iterator over a stream: one `deframe` after the other until the input is
